@@ -107,7 +107,7 @@ impl World for Reactions {
         let mut out = Outcome::new();
         out.evaluations = 1;
         out.steps = 1;
-        let problem = RealP::new(RealSpec { kind: RealKind::Sphere, dim: 1, lo: -1000.0, hi: 1000.0, penalty: None, name: "prepared".into() });
+        let problem = RealP::new(RealSpec { kind: RealKind::Sphere, dim: 1, lo: -1000.0, hi: 1000.0, penalty: None, name: "prepared".into(), scale: 1.0 });
         let mut state: State<RealP> = State::new();
         let mut pops = Populations::<RealP>::new();
         pops.push(c.molecules.iter().map(|(x, f, _)| ind(*x, *f)).collect());
